@@ -354,6 +354,29 @@ void gen_tree(Rng &rng, const TreeOpts &o, std::vector<Member> &out) {
 	};
 	fill("", 0, true);
 	if (out.empty()) out.push_back(gen_file(rng, level_all >= 0 ? level_all : 0, "", gen_name(rng), o));
+	for (auto &m : out) if (m.level >= 1 && rng.chance(1, 6)) add_noise_ext(rng, m);
+}
+
+// Extended headers that say nothing about what the oracles compare: Windows time stamps, user and group names, types
+// the library does not know, and known types too short to be used (ignored by design).  They must not change anything.
+void add_noise_ext(Rng &rng, Member &m) {
+	int n = 1 + (int) rng.below(3);
+	for (int i = 0; i < n; ++i) {
+		ExtHdr e;
+		switch (rng.below(9)) {
+			case 0: e.type = 0x41; e.data.resize(24); break;
+			case 1: e.type = 0x52; e.data = to_bytes(gen_name(rng, 8)); break;
+			case 2: e.type = 0x53; e.data = to_bytes(gen_name(rng, 8)); break;
+			case 3: e.type = 0x40; e.data.resize(2); break;
+			case 4: e.type = (uint8_t)(0x7a + rng.below(5)); e.data.resize(rng.below(12)); break;
+			case 5: e.type = 0x41; e.data.resize(rng.below(24)); break;             // too short: ignored
+			case 6: e.type = 0x50; e.data.resize(rng.below(2)); break;              // too short: ignored
+			case 7: e.type = 0x54; e.data.resize(rng.below(4)); break;              // too short: ignored
+			default: e.type = 0x51; e.data.resize(rng.below(4)); break;             // too short: ignored
+		}
+		if (e.type != 0x52 && e.type != 0x53) for (auto &b : e.data) b = rng.byte();
+		m.ext.insert(m.ext.begin() + (long) rng.below(m.ext.size() + 1), e);
+	}
 }
 
 // ------------------------------------------------------------------ stored-byte faults
